@@ -53,7 +53,6 @@ Definition roll_rows (fps total : flt) : Z := trunc (total * fps + one).
 
 (** ** Python slice clamping on an axis of length n: a[s:e] touches lo <= i < hi *)
 Definition py_idx (n i : Z) : Z := if i <? 0 then Z.max (i + n) 0 else Z.min i n.
-Definition py_slice (n s e : Z) : Z * Z := (py_idx n s, py_idx n e).
 
 (** ** Matrices *)
 Fixpoint set_nth {A} (p : nat) (v : A) (l : list A) : list A :=
@@ -74,7 +73,7 @@ Fixpoint paint_from {A} (i lo hi : Z) (p : nat) (f : Z -> A) (m : list (list A))
 
 (* m[s:e, p] = f(row index), Python slice semantics *)
 Definition paint {A} (m : list (list A)) (s e : Z) (p : nat) (f : Z -> A) : list (list A) :=
-  let '(lo, hi) := py_slice (Z.of_nat (length m)) s e in paint_from 0 lo hi p f m.
+  let n := Z.of_nat (length m) in paint_from 0 (py_idx n s) (py_idx n e) p f m.
 
 Definition blank {A} (rows cols : Z) (v : A) : list (list A) :=
   repeat (repeat v (Z.to_nat cols)) (Z.to_nat rows).
@@ -115,26 +114,36 @@ Record nframes := {
   f_off_s : Z; f_off_e : Z
 }.
 
-Definition note_frames (c : s2p_cfg) (n : snote) : nframes :=
-  let fft := frames_from_times (c_fps c) (c_occ c) in
-  let '(sf, ef) := fft (n_start n) (n_end n) in
+Definition fft (c : s2p_cfg) : flt -> flt -> Z * Z := frames_from_times (c_fps c) (c_occ c).
+
+(* start_frame, end_frame = frames_from_times(note.start_time, note.end_time) *)
+Definition main_frames (c : s2p_cfg) (n : snote) : Z * Z := fft c (n_start n) (n_end n).
+
+(* onset_start_frame, onset_end_frame *)
+Definition onset_frames (c : s2p_cfg) (n : snote) : Z * Z :=
   let delay := (c_delay_ms c / f1000)%float in
   let ost := (n_start n + delay)%float in
   let oet := (n_end n + delay)%float in
-  let '(ons, one_) :=
-    if c_mode c =? 0 then
-      let '(w, _) := fft ost oet in
-      (Z.max 0 (w - c_window c), Z.min (rows_of c) (w + c_window c + 1))
-    else
-      let oet' := fmin oet (ost + c_onset_len_ms c / f1000)%float in
-      fft ost oet' in
+  if c_mode c =? 0 then
+    let w := fst (fft c ost oet) in
+    (Z.max 0 (w - c_window c), Z.min (rows_of c) (w + c_window c + 1))
+  else
+    fft c ost (fmin oet (ost + c_onset_len_ms c / f1000)%float).
+
+(* offset_start_frame, offset_end_frame *)
+Definition offset_frames (c : s2p_cfg) (n : snote) : Z * Z :=
   let offl := (c_offset_len_ms c / f1000)%float in
   let fst_ := fmin (n_end n) (c_total c - offl)%float in
-  let fet := (fst_ + offl)%float in
-  let '(ofs, ofe0) := fft fst_ fet in
-  let ofe := Z.max ofe0 (ofs + 1) in
-  let '(sf', ef') := if c_overlap c then (sf, ef) else (one_, Z.max (one_ + 1) ef) in
-  {| f_start := sf'; f_end := ef'; f_on_s := ons; f_on_e := one_; f_off_s := ofs; f_off_e := ofe |}.
+  let fe := fft c fst_ (fst_ + offl)%float in
+  (fst fe, Z.max (snd fe) (fst fe + 1)).
+
+Definition note_frames (c : s2p_cfg) (n : snote) : nframes :=
+  let m := main_frames c n in
+  let on := onset_frames c n in
+  let off := offset_frames c n in
+  {| f_start := if c_overlap c then fst m else snd on;
+     f_end := if c_overlap c then snd m else Z.max (snd on + 1) (snd m);
+     f_on_s := fst on; f_on_e := snd on; f_off_s := fst off; f_off_e := snd off |}.
 
 Definition col_of (c : s2p_cfg) (n : snote) : nat := Z.to_nat (n_pitch n - c_min_pitch c).
 
@@ -145,8 +154,7 @@ Definition painted_notes (c : s2p_cfg) (notes : list snote) : list snote :=
 (* Exceptions: 1 = ValueError, 2 = IndexError. *)
 Definition weights_shape_ok (rows : Z) (fr : nframes) : bool :=
   let len := Z.max 0 (f_end fr - f_on_e fr) in
-  let '(lo, hi) := py_slice rows (f_on_e fr) (f_end fr) in
-  let sl := Z.max 0 (hi - lo) in
+  let sl := Z.max 0 (py_idx rows (f_end fr) - py_idx rows (f_on_e fr)) in
   (sl =? len) || (len =? 1).
 
 Definition note_error (c : s2p_cfg) (n : snote) : option Z :=
@@ -196,7 +204,7 @@ Definition paint_weights (c : s2p_cfg) (m : list (list Z)) (n : snote) : list (l
   let fr := note_frames c n in
   let m1 := paint m (f_on_s fr) (f_on_e fr) (col_of c n) (fun _ => 1) in
   let len := Z.max 0 (f_end fr - f_on_e fr) in
-  let '(lo, _) := py_slice (Z.of_nat (length m)) (f_on_e fr) (f_end fr) in
+  let lo := py_idx (Z.of_nat (length m)) (f_on_e fr) in
   let m2 := paint m1 (f_on_e fr) (f_end fr) (col_of c n)
                   (fun i => if len =? 1 then 1 else i - lo + 1) in
   if c_blank c && (0 <? f_start fr)
@@ -207,7 +215,7 @@ Definition weights_roll (c : s2p_cfg) (notes : list snote) : list (list Z) :=
 
 (* control changes: (time, number, value); result = association list (frame, number) -> value + 1 *)
 Definition cc_frame (c : s2p_cfg) (t : flt) : Z :=
-  fst (frames_from_times (c_fps c) (c_occ c) t zero).
+  fst (fft c t zero).
 
 Definition cc_key_eqb (a b : Z * Z) : bool := (fst a =? fst b) && (snd a =? snd b).
 
